@@ -56,6 +56,17 @@ structure Cfg where
   /-- `BAD_REQUEST_RESPONSE_PKT` -/
   badRequest : Bytes := Px.Gen.pkt_BAD_REQUEST_RESPONSE_PKT
 
+/-- The head of `HttpWebServerPlugin.on_request_complete` (eb09b1e): a request path that is
+    not valid UTF-8 (`(self.request.path or b'/').decode('utf-8')` raises) gets the canned 400
+    queued and `True` (teardown) returned before any routing; everything else (`inner`) stays
+    abstract.  `webPid` = index of the web server plugin among the handler plugins. -/
+def webGuard (badRequest : Bytes) (webPid : Nat) (inner : Nat → Parser → PluginRes) : Nat → Parser → PluginRes :=
+  fun pid rq =>
+    let path := match rq.path with
+      | some x => if x.isEmpty then [SLASH] else x
+      | none => [SLASH]
+    if pid == webPid && !Px.Url.utf8Valid path then .ret [badRequest] true else inner pid rq
+
 /-- `_discover_plugin_klass(protocol)`: first class whose `protocols()` contains it -/
 def discoverAux (protocol : Nat) : Nat → List (List Nat) → Option Nat
   | _, [] => none
